@@ -30,6 +30,8 @@ class QueryFamily:
         """C02_sound / C02_complete speak of the Cartesian product of NON-EMPTY domains: with an empty domain the product is empty
         although the evaluator may never need to enumerate that variable (a disjunct it is absent from).  Such cases are compared
         with the model only (engine: hyp = False)."""
+        if concat_var_bound_before(case):
+            return False
         return all_selected(case) or all(len(d) > 0 for _, d in case['doms'])
 
     # ---- canonicalisation: what the tie / the property compare -------------------------------
@@ -152,10 +154,56 @@ class QueryFamily:
             term_keys(t, used)
         d = dict(case)
         d['binders'] = [b for b in case['binders'] if b[1] in used]
-        d['doms'] = [x for x in case['doms'] if x[0] in used]
+        # (a concatenation ranges over its own inner variable: its domain stays)
+        inner = {b[2] for b in d['binders'] if b[0] in ('concat', 'concatflat')}
+        d['doms'] = [x for x in case['doms'] if x[0] in used or x[0] in inner]
         if case.get('form') == 'entity' and len(d['sel']) != 1:
             d['form'] = 'set_of'
         return d
+
+
+def concat_var_bound_before(case):
+    """a conjunct to the LEFT of the first use of a concatenation already mentions the variable the concatenation ranges over: the
+    library then computes the concatenation under that binding (a correlated reading), the specification over the whole domain;
+    C17 speaks of a concatenation whose variables are free where it is evaluated - such cases are compared with the model only"""
+    inner = {b[1]: b[2] for b in case.get('binders', []) if b[0] in ('concat', 'concatflat')}
+    if not inner or case.get('cond') is None:
+        return False
+    seen, bad, first_use = set(), [False], set()
+
+    def term(t, inside):
+        if t[0] == 'var':
+            if not inside:
+                seen.add(t[1])
+        elif t[0] == 'map':
+            term(t[2], inside)
+        elif t[0] == 'flat':
+            term(t[2], inside)
+        elif t[0] == 'concat':
+            if t[1] not in first_use:
+                first_use.add(t[1])
+                if inner.get(t[1]) in seen:
+                    bad[0] = True
+            term(t[2], True)
+        elif t[0] == 'subq':
+            term(t[3], inside)
+
+    def cond(c):
+        k = c[0]
+        if k == 'cmp':
+            term(c[2], False), term(c[3], False)
+        elif k in ('in', 'contains'):
+            term(c[1], False), term(c[2], False)
+        elif k == 'truth':
+            term(c[1], False)
+        elif k in ('and', 'or'):
+            cond(c[1]), cond(c[2])
+        elif k == 'not':
+            cond(c[1])
+        elif k in ('forall', 'sub'):
+            cond(c[2])
+    cond(case['cond'])
+    return bad[0]
 
 
 def repeated_flat_element(case):
